@@ -95,6 +95,10 @@ func buildComponent(wf *sp.Workflow, w *WF, n *Node, rt *Runtime) outPorter {
 		p := components.NewConcatenator(wf, n.Name, n.OutPath)
 		return &compAdapter{out: func(string) *sp.OutPort { return p.Out() }, in: func(string) *sp.InPort { return p.In() }}
 	case KGlobber:
+		if len(n.Ins) > 0 {
+			p := components.NewFileGlobberDependent(wf, n.Name, n.Globs...)
+			return &compAdapter{out: func(string) *sp.OutPort { return p.Out() }, in: func(string) *sp.InPort { return p.InDependency() }}
+		}
 		p := components.NewFileGlobber(wf, n.Name, n.Globs...)
 		return &compAdapter{out: func(string) *sp.OutPort { return p.Out() }}
 	case KFileToParams:
@@ -110,8 +114,12 @@ func buildComponent(wf *sp.Workflow, w *WF, n *Node, rt *Runtime) outPorter {
 func connectComponent(wf *sp.Workflow, w *WF, i int, procs []outPorter, rt *Runtime) {
 	n := &w.Nodes[i]
 	switch n.Kind {
-	case KFileSrc, KParamSrc, KGlobber, KFileToParams, KCmdToParams:
+	case KFileSrc, KParamSrc, KFileToParams, KCmdToParams:
 		return
+	case KGlobber:
+		if len(n.Ins) == 0 {
+			return
+		}
 	}
 	ca := procs[i].(*compAdapter)
 	for _, in := range n.Ins {
